@@ -208,6 +208,16 @@ fn run_case(seed: u64, idx: u64, _tier: Tier, out: &mut CaseOut) {
                     decls: vec![Decl { kind: DeclKind::DisplayNone, important: false }],
                 });
             }
+            // rules that change the text itself: generated content, white-space, the
+            // height/overflow idiom in all its spellings
+            if rng.chance(1, 3) {
+                out.inc("c:sheets_with_text_rules");
+                let extra = gen_text_rules(&mut rng, &vocab, 3);
+                for r in extra {
+                    let at = rng.below(sheet.0.len() + 1);
+                    sheet.0.insert(at, r);
+                }
+            }
             let canonical = sheet.canonical();
             let mut st = CssStyle::random(&mut rng);
             let variant = sheet.to_css(&mut st);
